@@ -180,6 +180,36 @@ def _with_ancestors(fa, node):
     return out
 
 
+def _with_holds(fa, w, opencall):
+    """Does leaving the `with` statement `w` close the stream created by `opencall`: the call is (part of) one of
+    its context expressions, or the stream is entered into / registered with an exit stack that `w` binds
+    (`with ExitStack() as s: f = s.enter_context(open(...))`, `s.callback(f.close)`, `s.push(f)`)."""
+    for it in w.items:
+        if any(x is opencall for x in ast.walk(it.context_expr)):
+            return True
+    stacks = {it.optional_vars.id for it in w.items if isinstance(it.optional_vars, ast.Name)}
+    if not stacks:
+        return False
+    # names that hold the stream
+    p = fa.pm.get(opencall)
+    held = set()
+    if isinstance(p, (ast.Assign, ast.AnnAssign)) and p.value is opencall:
+        held = {t.id for t in (p.targets if isinstance(p, ast.Assign) else [p.target]) if isinstance(t, ast.Name)}
+    for c in fa.calls():
+        rv = A.call_recv(c)
+        if not (isinstance(rv, ast.Name) and rv.id in stacks and fa.inside(c, w)):
+            continue
+        if A.call_attr(c) in ("enter_context", "push", "callback", "push_async_exit", "enter_async_context"):
+            for a in c.args:
+                if any(x is opencall for x in ast.walk(a)):
+                    return True
+                if isinstance(a, ast.Name) and a.id in held:
+                    return True
+                if isinstance(a, ast.Attribute) and a.attr in ("close", "__exit__") and isinstance(a.value, ast.Name) and a.value.id in held:
+                    return True
+    return False
+
+
 def _output_order(ck, R):
     fo = FA(ck, FSDS + ".output")
     mk = [c for c in fo.calls("makedirs")] + [c for c in fo.calls("mkdir")]
@@ -189,8 +219,8 @@ def _output_order(ck, R):
     # publication of the pointer: a call of a method that writes it, or the pointer write itself when it is inlined
     pub_calls = [c for c in fo.calls() if A.call_attr(c) in writers and A.dotted(A.call_recv(c)) in ("self", "cls")]
     pub = pub_calls + wo["pointer"] + _atomic_publications(fo)
-    holds_object = lambda w: any(any(x is c for x in ast.walk(it.context_expr)) for it in w.items for c in wopen)
-    holds_pointer = lambda w: any(any(x is c for x in ast.walk(it.context_expr)) for it in w.items for c in wo["pointer"])
+    holds_object = lambda w: any(_with_holds(fo, w, c) for c in wopen)
+    holds_pointer = lambda w: any(_with_holds(fo, w, c) for c in wo["pointer"])
     # the statements that put bytes into the object (not the write of the pointer's own content)
     copy = [c for c in fo.calls("copyfileobj") + fo.calls("write") if not any(holds_pointer(w) for w in _with_ancestors(fo, c))]
     copy += [c for c in wopen if A.call_attr(c) in ONESHOT]
@@ -249,12 +279,38 @@ def _output_order(ck, R):
               "the published pointer does not designate the version just written", fo.where(p))
     wl = FA(ck, FSDS + "._write_non_versioned_link")
     wlo = write_opens(ck, wl)["pointer"]
-    wr = [c for c in wl.calls("write") if any(any(any(x is o for x in ast.walk(it.context_expr)) for it in w.items for o in wlo)
-                                               for w in _with_ancestors(wl, c))] or [c for c in wl.calls("write")]
-    wr += [c for c in wlo if A.call_attr(c) in ONESHOT]
-    okw = bool(wr) and all("call:" + OBJ_PATH in wl.deps(c.args[0]) for c in wr if c.args)
-    ck.ob(R, wl.key(None, "pointer-content"), okw, "pointer content is the versioned object path" if okw else
-          "the pointer file does not contain the versioned object path", wl.where())
+    # what is written into the pointer (directly, or into a staging file that is then renamed onto it): the argument
+    # of write / write_text, or what print(..., file=handle) prints
+    wr = [c for c in wl.calls("write") if any(any(_with_holds(wl, w, o) for o in wlo) for w in _with_ancestors(wl, c))] or \
+        [c for c in wl.calls("write") if (A.call_dotted(c) or "") != "os.write"]
+    wr += [c for c in wl.calls() if A.call_attr(c) in ONESHOT and c in ck.cg.fs_write_sites.get(wl.qual, []) and c not in wr]
+    contents = [(c.args[0], c, "") for c in wr if c.args]
+    for c in wl.calls("print"):
+        if A.kwarg(c, "file") is not None:
+            end = A.kwarg(c, "end")
+            tail = "\n" if end is None else (A.const_str(end) if A.const_str(end) is not None else "?")
+            contents += [(a, c, tail) for a in c.args[:1]]
+            if len(c.args) != 1:
+                contents.append((None, c, tail))
+    okw = bool(contents) and all(e is not None and "call:" + OBJ_PATH in wl.deps(e) for (e, c, _t) in contents)
+    why = "the pointer file does not contain the versioned object path"
+    if okw:
+        # ... and nothing but that path, unless the reader strips what surrounds it: the reader turns the whole file
+        # content into the path, so `path + "\n"` designates a file that does not exist
+        rl_ = FA(ck, FSDS + "._read_non_versioned_link")
+        strips = any(A.call_attr(c) in ("strip", "rstrip", "splitlines", "split") for c in rl_.calls())
+        for (e, c, tail) in contents:
+            try:
+                parts = A.str_parts(wl.expand(e, wl.nodes(c)[0])) if wl.nodes(c) else None
+            except Exception:  # noqa - an expression the expander cannot place
+                parts = None
+            extra = "".join(v for (k, v) in (parts or []) if k == "lit") + tail
+            n_expr = len([1 for (k, v) in (parts or []) if k == "expr"]) if parts is not None else 1
+            if n_expr != 1 or (extra and not (strips and not extra.strip())):
+                okw = False
+                why = "the pointer file holds more than the object path (%r around it) while the reader takes the whole content as the path: " \
+                      "every key then designates a file that does not exist and nothing is ever served from the store" % extra
+    ck.ob(R, wl.key(None, "pointer-content"), okw, "pointer content is the versioned object path" if okw else why, wl.where())
 
 
 def _same_value(fa, e1, n1, e2, n2):
@@ -273,6 +329,25 @@ def _same_value(fa, e1, n1, e2, n2):
     return False
 
 
+def _validator_helpers(ck, ex):
+    """{qual: FuncInfo} — helpers that are new w.r.t. the reference inventory, belong to the data source (or its module) and
+    are reached from exists_nonversioned: together with it they form the reader's validity test when part of that
+    test was extracted and the call sits where the front end cannot write the helper out (an operand of `and`, a
+    branch of a conditional expression)."""
+    from ..inline import new_functions
+    new = {fi.qual: fi for fi in new_functions(ck.repo)}
+    out = {}
+    stack = [ex.fi]
+    while stack:
+        f = stack.pop()
+        for (_call, cands, _how) in ck.cg.edges.get(f.qual, []):
+            for c in cands:
+                if c.qual in new and c.qual not in out and c.qual != ex.fi.qual and c.module is ex.fi.module and c.cls in (None, ex.fi.cls):
+                    out[c.qual] = c
+                    stack.append(c)
+    return out
+
+
 def check_pointer_trust(ck):
     R = "C08.R2"
     ck.rule(R, "pointers are never trusted half-written: either the pointer name is only ever the destination of an "
@@ -284,15 +359,24 @@ def check_pointer_trust(ck):
     renames = _atomic_publications(wl)
     atomic = not direct and bool(renames)
     ex = FA(ck, FSDS + ".exists_nonversioned")
-    rd = [c for c in ex.calls("_read_non_versioned_link")]
+    helpers = _validator_helpers(ck, ex)
+    callers_of = lambda q: {fi.qual for (fi, _c, cands) in ck.cg.call_sites_of(lambda c, cands: any(x.qual == q for x in cands))}
+    # a helper belongs to the validity test only if nothing else uses it
+    unit_quals = {ex.fi.qual} | {q for q in helpers if callers_of(q) <= ({ex.fi.qual} | set(helpers))}
+    unit = [ex] + [FA(ck, helpers[q]) for q in sorted(helpers) if q in unit_quals]
+    rd = [c for u in unit for c in u.calls("_read_non_versioned_link")]
     validated = False
     why = "exists_nonversioned does not read the pointer"
     if rd:
         # the value derived from the pointer content must be tested with is_file()
-        isf = [c for c in ex.calls("is_file") if "call:_read_non_versioned_link" in ex.deps(A.call_recv(c))]
-        isf += [c for c in ex.calls("isfile") if c.args and "call:_read_non_versioned_link" in ex.deps(c.args[0])]
-        weak = [c for c in ex.calls("exists") if A.call_recv(c) is not None and not (A.call_dotted(c) or "").startswith("os.path")
-                and "call:_read_non_versioned_link" in ex.deps(A.call_recv(c))]
+        isf, weak = [], []
+        for u in unit:
+            isf += [c for c in u.calls("is_file") if "call:_read_non_versioned_link" in u.deps(A.call_recv(c))]
+            isf += [c for c in u.calls("isfile") if c.args and "call:_read_non_versioned_link" in u.deps(c.args[0])]
+            weak += [c for c in u.calls("exists") + u.calls("lexists") if A.call_recv(c) is not None and not (A.call_dotted(c) or "").startswith("os.path")
+                     and "call:_read_non_versioned_link" in u.deps(A.call_recv(c))]
+            weak += [c for c in u.calls("exists") + u.calls("lexists") if (A.call_dotted(c) or "").startswith("os.path") and c.args
+                     and "call:_read_non_versioned_link" in u.deps(c.args[0])]
         validated = bool(isf) and not weak
         why = "the designated path is only tested with exists(): an empty or truncated pointer designates Path('') = '.', which exists" if weak else \
             "the designated path is never tested to be a regular file"
@@ -303,7 +387,7 @@ def check_pointer_trust(ck):
     # consumers of pointer content
     for (fi, call, cands) in ck.cg.call_sites_of(lambda c, cands: A.call_attr(c) == "_read_non_versioned_link"):
         f2 = FA(ck, fi)
-        if fi.name == "exists_nonversioned":
+        if fi.qual in unit_quals:
             continue
         if fi.name == "input_nonversioned":
             okc = any(A.call_attr(c) in ("_do_input", "FileIO", "open") for c in f2.calls())
@@ -748,6 +832,33 @@ def check_readers_validate(ck):
         sub = e.args[0] if (A.call_dotted(e) or "").startswith("os.path") and e.args else A.call_recv(e)
         return _strip_path_wrappers(sub) if sub is not None else None
 
+    helpers = _validator_helpers(ck, ex)
+    hnames = {fi.name: fi for fi in helpers.values()}
+
+    def helper_of(e):
+        """the extracted part of the test that call `e` (an expanded copy) designates"""
+        if isinstance(e, ast.Call) and A.call_attr(e) in hnames and (isinstance(e.func, ast.Name) or A.dotted(A.call_recv(e)) in ("self", "cls", ex.fi.cls.name if ex.fi.cls else "")):
+            return hnames[A.call_attr(e)]
+        return None
+
+    def answers(fa, base, depth=2):
+        """The truth value every answer of `fa` has under the assumption `base` (an atom function), helpers included:
+        True / False, or None when the answers differ or are unknown."""
+        def atom(e):
+            v = base(e)
+            if v is None and depth > 0:
+                h = helper_of(e)
+                if h is not None and h.qual != fa.qual:
+                    return answers(FA(ck, h), base, depth - 1)
+            return v
+        asm = Assume(fa, atom)
+        vals = set()
+        for r in fa.returns():
+            for i in asm.live(r):
+                for (leaf, n) in (asm.cases(r.value, i) if r.value is not None else [(None, i)]):
+                    vals.add(None if leaf is None else asm.truth(leaf, n))
+        return vals.pop() if len(vals) == 1 else None
+
     def is_ptr(e):
         sub = subject(e)
         return isinstance(sub, ast.Call) and A.call_attr(sub) == LINK_PATH
@@ -770,21 +881,15 @@ def check_readers_validate(ck):
             return False
         return None
 
-    def always_false(asm):
-        rets = [r for r in ex.returns() if asm.live(r)]
-        res = bool(rets)
-        for r in rets:
-            for i in asm.live(r):
-                for (leaf, n) in (asm.cases(r.value, i) if r.value is not None else [(None, i)]):
-                    if leaf is None or asm.truth(leaf, n) is not False:
-                        res = False
-        return res
-
-    ok = always_false(Assume(ex, no_pointer)) and always_false(Assume(ex, bad_target)) and hits["ptr"] > 0 and hits["target"] > 0 and bool(rd)
+    rd = rd or [c for q in sorted(helpers) for c in FA(ck, helpers[q]).calls("_read_non_versioned_link")]
+    ok = answers(ex, no_pointer) is False and answers(ex, bad_target) is False and hits["ptr"] > 0 and hits["target"] > 0 and bool(rd)
     ck.ob(R, ex.key(None, "two-level"), ok, "tests the pointer, then the designated path" if ok else
           "exists_nonversioned no longer checks both the pointer and the path it designates", ex.where())
     ae = FA(ck, FSDS + ".all_exist_nonversioned")
-    oka = bool(ae.calls("exists_nonversioned"))
+    # called per key, or handed to map() / a helper as a bound method
+    oka = bool(ae.calls("exists_nonversioned")) or any(
+        isinstance(x, ast.Attribute) and x.attr == "exists_nonversioned" and isinstance(x.ctx, ast.Load) and A.dotted(x.value) in ("self", "cls")
+        for x in A.walk_body(ae.node))
     ck.ob(R, ae.key(None), oka, "bulk existence goes through exists_nonversioned" if oka else
           "all_exist_nonversioned bypasses exists_nonversioned", ae.where())
     am = FA(ck, "storage_base.DataSourceMetadataSource.all_mementos_exist")
